@@ -183,6 +183,12 @@ func Mentions(path, loc string) bool { return mentions(path, loc) }
 // ComputeFacts runs the forward must-analysis. Facts are generated on the
 // out-edges of If instructions and killed inside blocks by kill.
 func ComputeFacts(fn *ssa.Function, kill KillFunc) *FactFlow {
+	return ComputeFactsInit(fn, kill, nil)
+}
+
+// ComputeFactsInit is ComputeFacts with facts assumed at function entry
+// (inferred preconditions).
+func ComputeFactsInit(fn *ssa.Function, kill KillFunc, init FactSet) *FactFlow {
 	ff := &FactFlow{fn: fn, in: map[*ssa.BasicBlock]FactSet{}, kill: kill}
 	if len(fn.Blocks) == 0 {
 		return ff
@@ -190,6 +196,9 @@ func ComputeFacts(fn *ssa.Function, kill KillFunc) *FactFlow {
 	out := map[*ssa.BasicBlock]FactSet{}
 	// optimistic initialisation: nil = "not yet computed" (top)
 	ff.in[fn.Blocks[0]] = FactSet{}
+	for f := range init {
+		ff.in[fn.Blocks[0]][f] = true
+	}
 	work := []*ssa.BasicBlock{fn.Blocks[0]}
 	inq := map[*ssa.BasicBlock]bool{fn.Blocks[0]: true}
 	for len(work) > 0 {
